@@ -37,7 +37,7 @@ ASSUMPTIONS = [
     "labrea's locks replaced by cooperating locks from the harness (no source change)",
 ]
 FLOORS = {"schedules": (1500, 40000), "switching_schedules": (1000, 30000), "opcode_schedules": (300, 8000),
-          "line_schedules": (300, 8000), "yield_points": (50000, 1000000), "lock_acquisitions": (2000, 50000)}
+          "line_schedules": (300, 8000), "yield_points": (50000, 1000000), "lock_acquisitions": (2000, 50000), "focus_schedules": (1500, 15000)}
 COVER = {"scenarios": ["contexts-shared", "contexts-private", "inherit", "register-overloaded", "register-dataset", "evaluate-cached-unique", "evaluate-cached-equal"]}
 SHARDS_QUICK = 4
 TIMEOUT_QUICK = 1200
@@ -266,6 +266,12 @@ def sc_evaluate(rng, unique=True, n=2):
             for o, v in got[i]:
                 if v != expect(o):
                     return f"thread {i} evaluated with {o} and got {v!r}, its own options give {expect(o)!r}"
+        # follow-up history: every dictionary once more, sequentially (a store made under the wrong key shows here)
+        for i in range(n):
+            for o, _ in got[i]:
+                v = target.evaluate(dict(o))
+                if v != expect(o):
+                    return f"after the concurrent evaluations, evaluating {o} again returns {v!r} instead of {expect(o)!r} (cache entry written under another thread's key)"
         return None
 
     return [fn_for(i) for i in range(n)], verify, {"unique": unique, "rounds": rounds, "small": small}
@@ -288,10 +294,20 @@ def cleanup(threads):
             rt._RUNTIMES.pop(t, None)
 
 
-def one_schedule(ctx, name, seed, gran, chooser):
+FOCUS = {  # focus mode: yield points only in the file that owns the shared state of the scenario
+    "evaluate-cached-unique": ("cache.py",), "evaluate-cached-equal": ("cache.py",),
+    "register-overloaded": ("overload.py",), "register-dataset": ("overload.py",),
+    "contexts-shared": ("runtime.py",), "contexts-private": ("runtime.py",), "inherit": ("runtime.py",),
+}
+
+
+def one_schedule(ctx, name, seed, gran, chooser, focus=False):
     r = random.Random(seed)
     fns, verify, params = SCENARIOS[name](r)
-    s = S.Scheduler(chooser, gran)
+    files = tuple(S.LABREA_DIR + f for f in FOCUS[name]) if focus else None
+    s = S.Scheduler(chooser, gran, trace_files=files)
+    if focus:
+        ctx.count("focus_schedules")
     res = s.run(fns, timeout=60)
     cleanup(s.threads)
     ctx.evaluations += 1
@@ -301,7 +317,7 @@ def one_schedule(ctx, name, seed, gran, chooser):
     ctx.count("context_switches", s.switches)
     ctx.count("lock_acquisitions", s.lock_events)
     ctx.cover("scenarios", name)
-    W = {"scenario": name, "scenario_seed": seed, "granularity": gran, "choices": list(chooser.trace), "params": params}
+    W = {"scenario": name, "scenario_seed": seed, "granularity": gran, "choices": list(chooser.trace), "params": params, "focus": focus}
     if res.get("hung"):
         ctx.inconclusive.append(f"{name}/{gran}: threads {res['hung']} hit the watchdog")
         return
@@ -354,6 +370,15 @@ def run(ctx):
                 else:
                     ctx.count("exhaustive_dfs_" + gran)
                 ctx.count("dfs_runs_" + gran)
+                # focus mode: with yield points only in the file owning the scenario's shared state the execution
+                # is short enough to enumerate EVERY single preemption (and many double ones) at line/opcode level
+                if gran != "op" and len(ctx.violations) == before:
+                    def frunner(ch, name=name, seed=seed, gran=gran):
+                        one_schedule(ctx, name, seed, gran, ch, focus=True)
+
+                    for ch in S.spread_schedules(frunner, 2, 120 if ctx.quick else 1200, random.Random(f"f:{ctx.seed}:{name}:{gran}:{sseed}")):
+                        if len(ctx.violations) > before:
+                            break
                 # random schedules beyond the bound
                 for j in range(40 if ctx.quick else 600):
                     if len(ctx.violations) > before:
@@ -363,4 +388,4 @@ def run(ctx):
 
 def replay(ctx, rep):
     w = rep["witness"]
-    one_schedule(ctx, w["scenario"], w["scenario_seed"], w["granularity"], S.ReplayChooser(w["choices"]))
+    one_schedule(ctx, w["scenario"], w["scenario_seed"], w["granularity"], S.ReplayChooser(w["choices"]), focus=w.get("focus", False))
